@@ -1022,6 +1022,7 @@ class History(Entry):
         self.nmonitored = 0
         self.inexact_text = 0
         self.same_size_rewrites = 0
+        self.enc_pairs = {}
 
     def cases(self, ctx, round=0):
         r = ctx.rng
@@ -1039,7 +1040,7 @@ class History(Entry):
             cs.append(big_histories(r, None, [16385, 4097] if ctx.quick() else [16385, 4097, 70001, 32767]))
             for dl in ([DELIMS[1 + ctx.seed % 3]] if ctx.quick() else DELIMS[1:]):
                 cs.append(big_histories(r, dl, [16385, 3]))
-        n = ctx.n(120, 900) if round == 0 else ctx.n(60, 200)
+        n = ctx.n(90, 900) if round == 0 else ctx.n(60, 200)
         for i in range(n):
             cs.append(random_history(r, 8 if ctx.quick() else (40 if i % 8 == 0 else 14)))
         return cs
@@ -1072,6 +1073,8 @@ class History(Entry):
                     continue
                 txt.append([dl, a[0]])
                 back = a[1]
+                if len(ch["rows"]) <= 64 and len(self.enc_pairs) < 400:
+                    self.enc_pairs[(repr(ch["dtype"]), tuple(ch["rows"]), dl)] = (ch, dl, a[0])
                 # an ACCEPTED chunk whose own text round trip does not give back the written values (C04's subject):
                 # counted; the checker then demands the per-chunk read-back instead of the written values
                 if i in accepted and (a[2] != file_dtype(dl, ch["dtype"])
@@ -1381,9 +1384,31 @@ def run(ctx, replay=None):
         ent.nmonitored += e.nmonitored
         ent.inexact_text += e.inexact_text
         ent.same_size_rewrites += e.same_size_rewrites
+        ent.enc_pairs.update(e.enc_pairs)
     ctx.count("monitor:header_ok headers", ent.nmonitored)
     ctx.count("overwrites by a file of the same byte size and other contents (observed)", ent.same_size_rewrites)
     ctx.count("accepted text chunks whose own value round trip is not exact (C04's subject; per-chunk read-back demanded instead)", ent.inexact_text)
+    # the text the real writer printed for a chunk alone (what Exec.enc_of looks up) against C04's verified model of the
+    # writer with C04's model of printf (TextRows.enc_text FmtModel.F_model): ties the [enc] of the evaluated histories to
+    # the function the theorem C03_text_file_rows is about
+    pairs = list(ent.enc_pairs.values())[:ctx.n(120, 400)]
+    if pairs and replay is None:
+        pre2 = PRE + "From EsVerif.C03 Require Import ExecText.\n"
+        terms = ["v_enc %s (mkc %s %s (@nil (list byte)) [(%s, %s)])" % (cbytes(dl.encode()), cdtype(ch["dtype"]), crows(ch["rows"]),
+                                                                         cbytes(dl.encode()), cbytes(bytes.fromhex(t))) for ch, dl, t in pairs]
+        try:
+            vals = orig(os.path.join(ctx.work, "enc"), pre2, terms, shard=20, tag="enc")
+            bad = [(ch, dl) for (ch, dl, t), v in zip(pairs, vals) if v.strip("() ").replace("%Z", "") != "0"]
+        except core.CoqEvalError as e:
+            bad = [("<coq evaluation failed: %s>" % str(e)[-300:], None)]
+        ctx.count("per-chunk texts compared with C04's writer model", len(pairs))
+        ctx.obligation("text of %d (chunk, delimiter) pairs written alone by the real code = TextRows.enc_text F_model (C04's writer + printf "
+                       "model), evaluated in Coq" % len(pairs), not bad)
+        if bad:
+            ctx.violation("tie broken: the text the real writer prints for a chunk differs from C04's model of the writer on %d chunk(s); "
+                          "C03_text_file_rows then does not speak about the real files" % len(bad),
+                          {"kind": "correspondence", "entry": "enc_text", "case": {"chunk": bad[0][0], "delim": bad[0][1]},
+                           "no_longer_checks": "Exec.enc_of = TextRows.enc_text FmtModel.F_model on the chunks of this run"}, found_input=False)
     fails = list(ent.monitor_failures)
     ctx.obligation("contract monitor header_ok (b)(c): eval(joined text) == formatted dict; delimiter, numpy.dtype(_DTYPE), user "
                    "entries as created, on %d headers" % ent.nmonitored, not fails)
